@@ -146,12 +146,21 @@ class ModuleInfo:
     classes: dict = field(default_factory=dict)
     constants: dict = field(default_factory=dict)  # name -> ast expr (module-level simple assignments)
     rebinds: dict = field(default_factory=dict)  # imported name -> [expr, ...] re-binding it at module level, in order
+    alternatives: dict = field(default_factory=dict)  # name -> [(label, kind, payload)]: bound in different arms of one module-level if / try
 
     def segment(self, node):
         return ast.get_source_segment(self.src, node)
 
 
 _ALIASES = {"np": "numpy", "sp": "scipy", "pd": "pandas", "plt": "matplotlib.pyplot"}
+_RENAMED = {
+    "scipy.integrate.cumtrapz": "scipy.integrate.cumulative_trapezoid",
+    "scipy.integrate.trapz": "scipy.integrate.trapezoid",
+    "scipy.integrate.simps": "scipy.integrate.simpson",
+    "numpy.trapz": "numpy.trapezoid",
+    "scipy.integrate.quadrature.cumulative_trapezoid": "scipy.integrate.cumulative_trapezoid",
+    "scipy.integrate._quadrature.cumulative_trapezoid": "scipy.integrate.cumulative_trapezoid",
+}
 
 
 def _loop_names(tree, call, var):
@@ -292,6 +301,7 @@ class Program:
                 else:
                     yield node
 
+        self._index_alternatives(m)
         for node in statements(m.tree.body):
             if isinstance(node, ast.Import):
                 for a in node.names:
@@ -337,6 +347,48 @@ class Program:
                                 ast.copy_location(sub, node.value)
                                 ast.fix_missing_locations(sub)
                                 m.constants[e.id] = sub
+
+    def _index_alternatives(self, m):
+        """Names that the arms of one module-level `if / else` or `try / except` bind differently (a version gate, a
+        compatibility fallback): which arm runs depends on the installation, so a use of the name is a trace partition
+        over the alternatives - every one of them has to satisfy whatever is claimed."""
+
+        def bound(stmts):
+            out = {}
+            for st in stmts:
+                if isinstance(st, (ast.FunctionDef, ast.AsyncFunctionDef)):
+                    out[st.name] = ("func", st)
+                elif isinstance(st, ast.ImportFrom):
+                    for a in st.names:
+                        out[a.asname or a.name] = ("import", (st, a))
+                elif isinstance(st, ast.Import):
+                    for a in st.names:
+                        if a.asname:
+                            out[a.asname] = ("importmod", a.name)
+                elif isinstance(st, ast.Assign) and len(st.targets) == 1 and isinstance(st.targets[0], ast.Name):
+                    out[st.targets[0].id] = ("const", st.value)
+            return out
+
+        for node in m.tree.body:
+            arms = []
+            if isinstance(node, ast.If) and node.orelse:
+                if "TYPE_CHECKING" in ast.unparse(node.test):
+                    continue
+                t = ast.unparse(node.test)[:60]
+                arms = [(f"{t}", bound(node.body)), (f"not ({t})", bound(node.orelse))]
+            elif isinstance(node, ast.Try) and node.handlers:
+                arms = [(f"try block at line {node.lineno} succeeds", bound(node.body + node.orelse))]
+                for h in node.handlers:
+                    arms.append((f"{ast.unparse(h.type) if h.type is not None else 'exception'} in try block at line {node.lineno}", bound(h.body)))
+            if len(arms) < 2:
+                continue
+            names = set()
+            for _l, b in arms:
+                names |= set(b)
+            for nm in names:
+                alts = [(lab, *b[nm]) for lab, b in arms if nm in b]
+                if len(alts) >= 2:
+                    m.alternatives[nm] = alts
 
     def _index_function(self, node, m, cls, parent, prefix):
         q = f"{prefix}.{node.name}"
@@ -423,7 +475,8 @@ class Program:
                         break
             else:
                 break
-        return dotted
+        # the same routine under its former name (scipy / numpy renames): one identity for the rules
+        return _RENAMED.get(dotted, dotted)
 
     def resolve_expr_name(self, node, m: ModuleInfo) -> str | None:
         """Dotted qualified name of a Name/Attribute chain at module scope, or None."""
